@@ -122,6 +122,8 @@ def make_case(seed: int, stream: int):
                 return got + (kinds[stream],)
     wmc = stream % 3 == 2
     twins = stream % 6 == 1     # same-named externs in unrelated namespaces behind two ports
+    if twins and stream % 12 == 7:
+        twins = 'same-names'
     # where the multi-client port stands among the provides ports is cycled, not left to chance
     gen, ent, enc, info = cfggen.gen_shell_case(rng, want_multiclient=wmc, hostile_text=True,
                                                 mc_shape=stream // 3, twins=twins,
